@@ -178,8 +178,7 @@ theorem c07_stable_sort_characterised (o : OrdLaws V) (h : List (Op V)) (docids 
       docids.filter (fun d => decide (valueOf (table h) d = some v)) := by
   refine ⟨stableSort_perm _ _ _, stableSort_sorted o (run_inv h) docids reverse, ?_⟩
   intro v
-  unfold stableSort
-  rw [filter_isort_of_equiv]
+  rw [stableSort_eq, filter_isort_of_equiv]
   · unfold sortables
     rw [List.filter_filter]
     apply List.filter_congr
@@ -187,7 +186,7 @@ theorem c07_stable_sort_characterised (o : OrdLaws V) (h : List (Op V)) (docids 
     by_cases e : valueOf (table h) d = some v <;> simp [e, sortable]
   · intro x y _ _ hx hy
     simp only [decide_eq_true_eq] at hx hy
-    cases reverse <;> simp [keyLeB, hx, hy, o.le_refl]
+    cases reverse <;> simp [keyLeB, optLe, hx, hy, o.le_refl]
 
 /-! ## `FieldIndex.sort` with every `sort_type` -/
 
